@@ -50,10 +50,12 @@ def run(ctx):
                            "(race build) is validated by Trace_SQL; critical-section probes in the driver's open/close (Trace_CS).")
         ctx.assumptions += ["two handles on the same file with different option strings are excluded from the exhaustive runs (known finding: the second open blocks on the file lock)"]
         ctx.design("MC_SQL", ctx.cfg_variant("MC_SQL.cfg", dict(MaxSteps=9 if thorough else 7)), label="conn cache")
+        if thorough:
+            ctx.design("MC_SQL", ctx.cfg_variant("MC_SQL.cfg", dict(MaxSteps=14, Handles="{1, 2, 3}", Threads="{1, 2, 3}")), label="conn cache 3 handles x 3 threads")
         ctx.negative_control("MC_SQL", ctx.cfg_variant("MC_SQL.cfg", dict(NoDriverMutex="TRUE")), label="neg:NoDriverMutex")
         ctx.negative_control("MC_SQL", ctx.cfg_variant("MC_SQL.cfg", dict(KeepClosedConnInCache="TRUE")), label="neg:KeepClosedConnInCache")
         path = os.path.join(ctx.work, "hist.ndjson")
-        r = ctx.gen_to_file("Gen_SQL", ctx.cfg_variant("Gen_SQL.cfg", dict(MaxSteps=7 if thorough else 6)), path, workers=4, label="gen-hist")
+        r = ctx.gen_to_file("Gen_SQL", ctx.cfg_variant("Gen_SQL.cfg", dict(MaxSteps=8 if thorough else 6)), path, workers=4, label="gen-hist")
         if r["emitted"] < 50:
             raise Broken("Gen_SQL emitted nothing")
         ctx.run_replay("replay-sqlhist", ["-in", path, "-seed", seed], "replay-sqlhist", sigkeys=("kind",), timeout=3000)
@@ -85,7 +87,7 @@ def run(ctx):
             log("[replay] two option strings on one file: %s" % ("hang (known finding)" if hung else "no hang"))
         race = ctx.build_harness(race=True)
         tr = os.path.join(ctx.work, "sqlconc.ndjson")
-        fam_conc._race_record(ctx, race, "record-sql-conc", ["-seed", seed, "-cycles", "40" if thorough else "12"], tr)
+        fam_conc._race_record(ctx, race, "record-sql-conc", ["-seed", seed, "-cycles", "120" if thorough else "12"], tr)
         ctx.check_trace("Trace_SQL", "Trace_SQL.cfg", tr, "trace-sql-conc(race build)", must_have=("Query", "DBClose", "Probe"), run_marker="Cycle", deque=True)
         tr = os.path.join(ctx.work, "cs.ndjson")
         ctx.record("record-cs", ["-rounds", "4", "-only", "driver"], tr)
